@@ -1,9 +1,10 @@
 import SaModel.Lemmas.C09Json
 import SaModel.Spec.SchemaSide
 /-
-C09: `validate_field` accepts ONLY valid fields — the converse of `validateField_of_valid`, under the two side
-conditions of `Spec/SchemaSide.lean` (parameters in the range of their Rust types, map entries fields annotated like
-structs), both of which follow from `validField`.
+C09: `validate_field` accepts ONLY valid fields — the converse of `validateField_of_valid`, under the side condition
+`rangeField` of `Spec/SchemaSide.lean` (parameters in the range of their Rust types), which follows from `validField`.
+(Before `fix: validate_map_field validates the entries field itself` a second side condition was needed, `entriesField`:
+the entries field of a map was not validated as the struct field it is; `validField` implies it, `side_of_valid`.)
 -/
 namespace SaModel.SchemaJson
 open SaModel SaModel.Dsl
@@ -59,17 +60,15 @@ theorem bind_unit_ok {x : R Unit} {f : Unit → R Unit} (h : (x >>= f) = .ok ())
 /-! ## `validate_field` accepts only valid fields -/
 
 mutual
-theorem validField_of_validate : (f : Field) → rangeField f = true → entriesField f = true →
-    validateField f = .ok () → validField f = true
-  | .mk _ dt _ m, hr, he, h => by
+theorem validField_of_validate : (f : Field) → rangeField f = true → validateField f = .ok () → validField f = true
+  | .mk _ dt _ m, hr, h => by
     simp only [rangeField] at hr
-    simp only [entriesField] at he
     simp only [validateField] at h
     simp only [validField]
-    exact validType_of_validate m dt hr he h
-theorem validType_of_validate (m : Metadata) : (dt : DataType) → rangeType dt = true → entriesType dt = true →
+    exact validType_of_validate m dt hr h
+theorem validType_of_validate (m : Metadata) : (dt : DataType) → rangeType dt = true →
     validateDataType m dt = .ok () → validType m dt = true
-  | .null, _, _, h => by
+  | .null, _, h => by
     simp only [validateDataType] at h
     cases hg : getStrategyFromMetadata m with
     | error e => simp [hg, bind, Except.bind] at h
@@ -78,10 +77,9 @@ theorem validType_of_validate (m : Metadata) : (dt : DataType) → rangeType dt 
       cases o with
       | none => simp [validType, hc]
       | some st => cases st <;> simp [hg, bind, Except.bind, fail] at h <;> simp [validType, hc]
-  | .struct fs, hr, he, h => by
+  | .struct fs, hr, h => by
     simp only [validateDataType] at h
     simp only [rangeType] at hr
-    simp only [entriesType] at he
     cases hg : getStrategyFromMetadata m with
     | error e => simp [hg, bind, Except.bind] at h
     | ok o =>
@@ -89,13 +87,13 @@ theorem validType_of_validate (m : Metadata) : (dt : DataType) → rangeType dt 
       cases o with
       | none =>
         simp only [hg, bind, Except.bind, pure, Except.pure] at h
-        simp [validType, hc, validFields_of_validate fs hr he h]
+        simp [validType, hc, validFields_of_validate fs hr h]
       | some st =>
         cases st <;> simp only [hg, bind, Except.bind, pure, Except.pure, fail] at h <;>
           first
-            | (simp [validType, hc, validFields_of_validate fs hr he h]; done)
+            | (simp [validType, hc, validFields_of_validate fs hr h]; done)
             | (cases h)
-  | .fixedSizeBinary n, hr, _, h => by
+  | .fixedSizeBinary n, hr, h => by
     simp only [validateDataType] at h
     simp only [rangeType, i32Range, Bool.and_eq_true, decide_eq_true_eq] at hr
     split at h
@@ -103,77 +101,71 @@ theorem validType_of_validate (m : Metadata) : (dt : DataType) → rangeType dt 
     · rename_i hn
       simp only [validType, noStrat_of_noStrategy h, Bool.true_and, Bool.and_eq_true, decide_eq_true_eq]
       omega
-  | .time32 u, _, _, h => by
+  | .time32 u, _, h => by
     simp only [validateDataType] at h
     obtain ⟨h1, h2⟩ := bind_unit_ok h
     cases u <;> first | (cases h2; done) | simp [validType, noStrat_of_noStrategy h1]
-  | .time64 u, _, _, h => by
+  | .time64 u, _, h => by
     simp only [validateDataType] at h
     obtain ⟨h1, h2⟩ := bind_unit_ok h
     cases u <;> first | (cases h2; done) | simp [validType, noStrat_of_noStrategy h1]
-  | .decimal128 p s, hr, _, h => by
+  | .decimal128 p s, hr, h => by
     simp only [validateDataType] at h
     simp only [rangeType] at hr
     simp only [validType, noStrat_of_noStrategy h, Bool.true_and]
     exact hr
-  | .list f, hr, he, h => by
+  | .list f, hr, h => by
     simp only [validateDataType] at h
     simp only [rangeType] at hr
-    simp only [entriesType] at he
     obtain ⟨h1, h2⟩ := bind_unit_ok h
-    simp [validType, noStrat_of_noStrategy h1, validField_of_validate f hr he h2]
-  | .largeList f, hr, he, h => by
+    simp [validType, noStrat_of_noStrategy h1, validField_of_validate f hr h2]
+  | .largeList f, hr, h => by
     simp only [validateDataType] at h
     simp only [rangeType] at hr
-    simp only [entriesType] at he
     obtain ⟨h1, h2⟩ := bind_unit_ok h
-    simp [validType, noStrat_of_noStrategy h1, validField_of_validate f hr he h2]
-  | .fixedSizeList f n, hr, he, h => by
+    simp [validType, noStrat_of_noStrategy h1, validField_of_validate f hr h2]
+  | .fixedSizeList f n, hr, h => by
     simp only [validateDataType] at h
     simp only [rangeType, i32Range, Bool.and_eq_true, decide_eq_true_eq] at hr
-    simp only [entriesType] at he
     split at h
     · cases h
     · rename_i hn
       obtain ⟨h1, h2⟩ := bind_unit_ok h
-      simp only [validType, noStrat_of_noStrategy h1, validField_of_validate f hr.2 he h2, Bool.true_and, Bool.and_true,
+      simp only [validType, noStrat_of_noStrategy h1, validField_of_validate f hr.2 h2, Bool.true_and, Bool.and_true,
         Bool.and_eq_true, decide_eq_true_eq]
       omega
-  | .map (.mk _ (.struct (.cons kf (.cons vf .nil))) _ me) sorted, hr, he, h => by
+  | .map (.mk en (.struct (.cons kf (.cons vf .nil))) enl me) sorted, hr, h => by
+    -- the entries field is validated as a struct field: its strategy included
     simp only [validateDataType] at h
-    simp only [rangeType, rangeField, rangeFields, Bool.and_eq_true] at hr
-    simp only [entriesType, entriesField, entriesFields, Bool.and_eq_true, entryStrat, structStrat] at he
+    simp only [rangeType] at hr
     obtain ⟨h1, h2⟩ := bind_unit_ok h
-    obtain ⟨h3, h4⟩ := bind_unit_ok h2
-    have hk := validField_of_validate kf hr.1 he.2.1 h3
-    have hv := validField_of_validate vf hr.2.1 he.2.2.1 h4
-    simp only [validType, noStrat_of_noStrategy h1, isStruct2, validField, validFields, hk, hv, Bool.true_and, Bool.and_true]
-    exact he.1
-  | .map (.mk _ (.struct .nil) _ _) _, _, _, h
-  | .map (.mk _ (.struct (.cons _ .nil)) _ _) _, _, _, h
-  | .map (.mk _ (.struct (.cons _ (.cons _ (.cons _ _)))) _ _) _, _, _, h => by
+    have he := validField_of_validate (.mk en (.struct (.cons kf (.cons vf .nil))) enl me) hr h2
+    simp only [validType, noStrat_of_noStrategy h1, isStruct2, he, Bool.true_and]
+  | .map (.mk _ (.struct .nil) _ _) _, _, h
+  | .map (.mk _ (.struct (.cons _ .nil)) _ _) _, _, h
+  | .map (.mk _ (.struct (.cons _ (.cons _ (.cons _ _)))) _ _) _, _, h => by
     simp only [validateDataType] at h
     obtain ⟨_, h2⟩ := bind_unit_ok h
     cases h2
-  | .map (.mk _ .null _ _) _, _, _, h | .map (.mk _ .boolean _ _) _, _, _, h | .map (.mk _ .int8 _ _) _, _, _, h
-  | .map (.mk _ .int16 _ _) _, _, _, h | .map (.mk _ .int32 _ _) _, _, _, h | .map (.mk _ .int64 _ _) _, _, _, h
-  | .map (.mk _ .uint8 _ _) _, _, _, h | .map (.mk _ .uint16 _ _) _, _, _, h | .map (.mk _ .uint32 _ _) _, _, _, h
-  | .map (.mk _ .uint64 _ _) _, _, _, h | .map (.mk _ .float16 _ _) _, _, _, h | .map (.mk _ .float32 _ _) _, _, _, h
-  | .map (.mk _ .float64 _ _) _, _, _, h | .map (.mk _ .utf8 _ _) _, _, _, h | .map (.mk _ .largeUtf8 _ _) _, _, _, h
-  | .map (.mk _ .utf8View _ _) _, _, _, h | .map (.mk _ .binary _ _) _, _, _, h | .map (.mk _ .largeBinary _ _) _, _, _, h
-  | .map (.mk _ .binaryView _ _) _, _, _, h | .map (.mk _ (.fixedSizeBinary _) _ _) _, _, _, h
-  | .map (.mk _ .date32 _ _) _, _, _, h | .map (.mk _ .date64 _ _) _, _, _, h
-  | .map (.mk _ (.timestamp _ _) _ _) _, _, _, h | .map (.mk _ (.time32 _) _ _) _, _, _, h
-  | .map (.mk _ (.time64 _) _ _) _, _, _, h | .map (.mk _ (.duration _) _ _) _, _, _, h
-  | .map (.mk _ (.interval _) _ _) _, _, _, h | .map (.mk _ (.decimal128 _ _) _ _) _, _, _, h
-  | .map (.mk _ (.list _) _ _) _, _, _, h | .map (.mk _ (.largeList _) _ _) _, _, _, h
-  | .map (.mk _ (.fixedSizeList _ _) _ _) _, _, _, h | .map (.mk _ (.map _ _) _ _) _, _, _, h
-  | .map (.mk _ (.dictionary _ _) _ _) _, _, _, h | .map (.mk _ (.runEndEncoded _ _) _ _) _, _, _, h
-  | .map (.mk _ (.union _ _) _ _) _, _, _, h => by
+  | .map (.mk _ .null _ _) _, _, h | .map (.mk _ .boolean _ _) _, _, h | .map (.mk _ .int8 _ _) _, _, h
+  | .map (.mk _ .int16 _ _) _, _, h | .map (.mk _ .int32 _ _) _, _, h | .map (.mk _ .int64 _ _) _, _, h
+  | .map (.mk _ .uint8 _ _) _, _, h | .map (.mk _ .uint16 _ _) _, _, h | .map (.mk _ .uint32 _ _) _, _, h
+  | .map (.mk _ .uint64 _ _) _, _, h | .map (.mk _ .float16 _ _) _, _, h | .map (.mk _ .float32 _ _) _, _, h
+  | .map (.mk _ .float64 _ _) _, _, h | .map (.mk _ .utf8 _ _) _, _, h | .map (.mk _ .largeUtf8 _ _) _, _, h
+  | .map (.mk _ .utf8View _ _) _, _, h | .map (.mk _ .binary _ _) _, _, h | .map (.mk _ .largeBinary _ _) _, _, h
+  | .map (.mk _ .binaryView _ _) _, _, h | .map (.mk _ (.fixedSizeBinary _) _ _) _, _, h
+  | .map (.mk _ .date32 _ _) _, _, h | .map (.mk _ .date64 _ _) _, _, h
+  | .map (.mk _ (.timestamp _ _) _ _) _, _, h | .map (.mk _ (.time32 _) _ _) _, _, h
+  | .map (.mk _ (.time64 _) _ _) _, _, h | .map (.mk _ (.duration _) _ _) _, _, h
+  | .map (.mk _ (.interval _) _ _) _, _, h | .map (.mk _ (.decimal128 _ _) _ _) _, _, h
+  | .map (.mk _ (.list _) _ _) _, _, h | .map (.mk _ (.largeList _) _ _) _, _, h
+  | .map (.mk _ (.fixedSizeList _ _) _ _) _, _, h | .map (.mk _ (.map _ _) _ _) _, _, h
+  | .map (.mk _ (.dictionary _ _) _ _) _, _, h | .map (.mk _ (.runEndEncoded _ _) _ _) _, _, h
+  | .map (.mk _ (.union _ _) _ _) _, _, h => by
     simp only [validateDataType] at h
     obtain ⟨_, h2⟩ := bind_unit_ok h
     cases h2
-  | .dictionary k v, _, _, h => by
+  | .dictionary k v, _, h => by
     simp only [validateDataType] at h
     obtain ⟨h1, h2⟩ := bind_unit_ok h
     split at h2
@@ -183,42 +175,39 @@ theorem validType_of_validate (m : Metadata) : (dt : DataType) → rangeType dt 
       · rename_i hk hv
         simp at hk hv
         simp [validType, noStrat_of_noStrategy h1, hk, hv]
-  | .union us mode, hr, he, h => by
+  | .union us mode, hr, h => by
     simp only [validateDataType] at h
     simp only [rangeType] at hr
-    simp only [entriesType] at he
     obtain ⟨h1, h2⟩ := bind_unit_ok h
-    simp [validType, noStrat_of_noStrategy h1, validUFields_of_validate us hr he h2]
-  | .interval _, _, _, h => by simp [validateDataType, fail] at h
-  | .runEndEncoded _ _, _, _, h => by simp [validateDataType, fail] at h
-  | .boolean, _, _, h | .int8, _, _, h | .int16, _, _, h | .int32, _, _, h | .int64, _, _, h | .uint8, _, _, h
-  | .uint16, _, _, h | .uint32, _, _, h | .uint64, _, _, h | .float16, _, _, h | .float32, _, _, h | .float64, _, _, h
-  | .utf8, _, _, h | .largeUtf8, _, _, h | .utf8View, _, _, h | .binary, _, _, h | .largeBinary, _, _, h
-  | .binaryView, _, _, h | .date32, _, _, h | .date64, _, _, h | .timestamp _ _, _, _, h | .duration _, _, _, h => by
+    simp [validType, noStrat_of_noStrategy h1, validUFields_of_validate us hr h2]
+  | .interval _, _, h => by simp [validateDataType, fail] at h
+  | .runEndEncoded _ _, _, h => by simp [validateDataType, fail] at h
+  | .boolean, _, h | .int8, _, h | .int16, _, h | .int32, _, h | .int64, _, h | .uint8, _, h
+  | .uint16, _, h | .uint32, _, h | .uint64, _, h | .float16, _, h | .float32, _, h | .float64, _, h
+  | .utf8, _, h | .largeUtf8, _, h | .utf8View, _, h | .binary, _, h | .largeBinary, _, h
+  | .binaryView, _, h | .date32, _, h | .date64, _, h | .timestamp _ _, _, h | .duration _, _, h => by
     simp only [validateDataType] at h
     simp only [validType]
     exact noStrat_of_noStrategy h
-theorem validFields_of_validate : (fs : Fields) → rangeFields fs = true → entriesFields fs = true →
+theorem validFields_of_validate : (fs : Fields) → rangeFields fs = true →
     validateFields fs = .ok () → validFields fs = true
-  | .nil, _, _, _ => rfl
-  | .cons f r, hr, he, h => by
+  | .nil, _, _ => rfl
+  | .cons f r, hr, h => by
     simp only [rangeFields, Bool.and_eq_true] at hr
-    simp only [entriesFields, Bool.and_eq_true] at he
     simp only [validateFields] at h
     obtain ⟨h1, h2⟩ := bind_unit_ok h
-    simp [validFields, validField_of_validate f hr.1 he.1 h1, validFields_of_validate r hr.2 he.2 h2]
-theorem validUFields_of_validate : (us : UFields) → rangeUFields us = true → entriesUFields us = true →
+    simp [validFields, validField_of_validate f hr.1 h1, validFields_of_validate r hr.2 h2]
+theorem validUFields_of_validate : (us : UFields) → rangeUFields us = true →
     validateUFields us = .ok () → validUFields us = true
-  | .nil, _, _, _ => rfl
-  | .cons _ f r, hr, he, h => by
+  | .nil, _, _ => rfl
+  | .cons _ f r, hr, h => by
     simp only [rangeUFields, Bool.and_eq_true] at hr
-    simp only [entriesUFields, Bool.and_eq_true] at he
     simp only [validateUFields] at h
     obtain ⟨h1, h2⟩ := bind_unit_ok h
-    simp [validUFields, validField_of_validate f hr.1 he.1 h1, validUFields_of_validate r hr.2 he.2 h2]
+    simp [validUFields, validField_of_validate f hr.1 h1, validUFields_of_validate r hr.2 h2]
 end
 
-/-! ## valid fields meet the side conditions -/
+/-! ## valid fields have parameters in range and map entries annotated like structs -/
 
 mutual
 theorem side_of_valid : (f : Field) → validField f = true → rangeField f = true ∧ entriesField f = true
@@ -287,9 +276,9 @@ theorem sideUFields_of_valid : (us : UFields) → validUFields us = true →
     simp [rangeUFields, entriesUFields, h1, h2]
 end
 
-/-- `validate_field` decides `validField` on fields that meet the side conditions -/
-theorem validate_iff_valid (f : Field) (hr : rangeField f = true) (he : entriesField f = true) :
-    validateField f = .ok () ↔ validField f = true :=
-  ⟨validField_of_validate f hr he, validateField_of_valid f⟩
+/-- `validate_field` decides `validField` (on fields whose numeric parameters are values of their Rust types: the model's
+`Field` carries unbounded integers) -/
+theorem validate_iff_valid (f : Field) (hr : rangeField f = true) : validateField f = .ok () ↔ validField f = true :=
+  ⟨validField_of_validate f hr, validateField_of_valid f⟩
 
 end SaModel.SchemaJson
